@@ -94,6 +94,48 @@ func caseClean(t *topology.Topology) {
 	c14stats["clean"]++
 }
 
+// caseCleanQ: id-based look-ups BEFORE the transformation (whatever they leave behind in the object is
+// stale afterwards), CleanSections, then the look-ups again for every id of the old list and an absent id
+// (seed C14-10: a lazily built id -> position index that nothing resets when entries are deleted)
+func caseCleanQ(t *topology.Topology) {
+	before := topoSx(t)
+	var ids []uint32
+	seen := map[uint32]bool{}
+	for _, h := range t.HWc {
+		if !seen[h.Id] {
+			seen[h.Id] = true
+			ids = append(ids, h.Id)
+		}
+	}
+	ids = append(ids, 4000000001)
+	var qs []Sx
+	func() {
+		defer func() {
+			if e := recover(); e != nil {
+				t.HWc = nil
+				t.Title = "PANIC"
+			}
+		}()
+		for _, id := range ids {
+			t.GetHWCxy(id)
+			t.GetHWCtext(id)
+			t.GetHWCtype(id)
+		}
+		t.GetHWCs()
+		t.GetHWCsWithDisplay()
+		t.CleanSections()
+		for _, id := range ids {
+			x, y := t.GetHWCxy(id)
+			qs = append(qs, Sx(L(id, x, y, t.GetHWCtext(id))))
+		}
+	}()
+	if qs == nil {
+		qs = []Sx{}
+	}
+	emit(L(Sym("cleanq"), before, topoSx(t), qs))
+	c14stats["clean-with-lookups"]++
+}
+
 func caseRand(t *topology.Topology, seq bool) {
 	before := topoSx(t)
 	func() {
@@ -112,9 +154,37 @@ func caseRand(t *topology.Topology, seq bool) {
 	}
 }
 
+// what earlier calls returned is kept (with a private copy) and looked at again after later calls: a
+// serialiser that hands out memory it reuses (seed C14-9: the returned string aliases a shared buffer)
+// changes what an earlier caller holds.  If that happens the EARLIER case is emitted once more with the
+// first document as it reads now - it is then no longer the fixpoint the others are.
+type c14kept struct {
+	before, after Sx
+	j1, j2, j3    string
+	copy1         []byte
+}
+
+var c14prev []*c14kept
+
 func caseJSON(t *topology.Topology) {
+	defer func() {
+		for _, k := range c14prev {
+			if k.j1 != string(k.copy1) {
+				emit(L(Sym("json"), k.before, k.j1, jsonToTree(k.j1), k.after, k.j2, k.j3))
+				c14stats["json-earlier-result-altered"]++
+				k.copy1 = []byte(k.j1)
+			}
+		}
+	}()
 	before := topoSx(t)
 	j1 := t.ToJSON()
+	keep := &c14kept{before: before, j1: j1, copy1: []byte(j1)}
+	defer func() {
+		c14prev = append(c14prev, keep)
+		if len(c14prev) > 3 {
+			c14prev = c14prev[1:]
+		}
+	}()
 	var t2 topology.Topology
 	json.Unmarshal([]byte(j1), &t2)
 	after := topoSx(&t2)
@@ -125,7 +195,8 @@ func caseJSON(t *topology.Topology) {
 	if s := t3.JSONstring(); s != j3 {
 		j3 = "JSONstring() differs from ToJSON(): " + s
 	}
-	emit(L(Sym("json"), before, j1, jsonToTree(j1), after, j2, j3))
+	keep.after, keep.j2, keep.j3 = after, string(append([]byte{}, j2...)), string(append([]byte{}, j3...))
+	emit(L(Sym("json"), before, string(keep.copy1), jsonToTree(string(keep.copy1)), after, j2, j3))
 	c14stats["json"]++
 }
 
@@ -283,6 +354,9 @@ func replayC14(line string) {
 	case "clean":
 		fromSx(n.Kids[1], reflect.ValueOf(t).Elem())
 		caseClean(t)
+	case "cleanq":
+		fromSx(n.Kids[1], reflect.ValueOf(t).Elem())
+		caseCleanQ(t)
 	case "rand":
 		fromSx(n.Kids[2], reflect.ValueOf(t).Elem())
 		caseRand(t, n.Kids[1].Atom != "0")
@@ -369,7 +443,11 @@ func genC14(tier string, rng *Rng) {
 				}
 				t.HWc = append(t.HWc, h)
 			}
-			caseClean(t)
+			if (mask+n)%3 == 0 {
+				caseCleanQ(t)
+			} else {
+				caseClean(t)
+			}
 			hist["clean-exhaustive"]++
 		}
 	}
@@ -412,7 +490,11 @@ func genC14(tier string, rng *Rng) {
 			}
 			t.HWc = append(t.HWc, h)
 		}
-		caseClean(t)
+		if shape%2 == 0 {
+			caseCleanQ(t)
+		} else {
+			caseClean(t)
+		}
 		hist["clean-long-shape-"+strconv.Itoa(shape)]++
 	}
 
